@@ -1,10 +1,829 @@
-//! Family `parse` — stub (replaced by the unit that owns this family).
+//! Family `parse` (C01 precedence, C07 parser part, C10 parser part): the real `Parser`.
+//!
+//! Protocol (one request per line, one answer per line):
+//! ```text
+//! parse <hex src> <tokens>   -> diags=<D> labels=<L> ast=<A> end=<ok|panic>
+//! ```
+//! `<tokens>` = `lex::toks_str(src)` (the generator computes it with the real lexer; the Lean model
+//! parses that list, the harness parses `src` with the real `Lexer` + `Parser`). `<D>`/`<L>` are the
+//! **syntax** diagnostics only, in `pipeline::diags_str` / `labels_str` form: the parser puts the
+//! lexer's diagnostics in front of its own, and those carry the code `lexical`, so the leading
+//! `lexical` entries are dropped (the lexer is lazy: it has only produced the diagnostics of the
+//! tokens the parser pulled, so they cannot be counted by running the lexer alone). `<A>` =
+//! `astio::program` with spans, annotations all `_`.
+//!
+//! Oracle (needs no model): every span in the AST and in every diagnostic / label is `0:0` or
+//! satisfies `lo <= hi <= |src|` with both ends on `is_char_boundary`. `ORACLE-FAIL <line> <what>`.
+//!
+//! `nvh parse gen --seed S --n N --kind prog|mut|deep|mix`   request lines from the generators
+//! `nvh parse gen --seed S --n N --kind pairs`               2N lines: a program, then the same tokens
+//!                                                            re-laid-out (+ redundant parentheses)
+//! `nvh parse mkreq`                                          stdin: one hex source per line -> request lines
+//! `nvh parse run`                                            answer request lines
 
-pub fn main(_args: &[String]) -> i32 {
-    eprintln!("family parse: not built yet");
-    2
+use naijascript::arena::Arena;
+use naijascript::diagnostics::{Diagnostic, Span};
+use naijascript::syntax::parser::{Block, Expr, ExprRef, Parser, Stmt, StmtRef};
+use naijascript::syntax::scanner::Lexer;
+
+use crate::astio::{self, Opts};
+use crate::lex;
+use crate::pipeline;
+use crate::util::{self, Out, Rng};
+
+pub fn main(args: &[String]) -> i32 {
+    match args.first().map(String::as_str) {
+        Some("gen") => generate(&args[1..]),
+        Some("mkreq") => mkreq(),
+        Some("run") => run(),
+        _ => {
+            eprintln!("usage: nvh parse gen --seed S --n N --kind prog|mut|deep|mix|pairs | nvh parse mkreq | nvh parse run");
+            2
+        }
+    }
 }
 
-/// Constants/tables of the compiled crate this family wants in `nvh dump-tables`
-/// (JSON key, JSON value text).
+/// Constants/tables of the compiled crate this family wants in `nvh dump-tables`: none (the
+/// binding-power table is private to `parser.rs`; `extract/gen_parse.py` reads it from the source).
 pub fn dump_tables(_out: &mut Vec<(String, String)>) {}
+
+// ------------------------------------------------------------------------------------------------
+// run
+// ------------------------------------------------------------------------------------------------
+
+fn diag_str(x: &Diagnostic<'_>) -> String {
+    format!(
+        "{}:{}:{}:{}:{}",
+        pipeline::sev_name(x.severity),
+        x.code,
+        x.message.replace([' ', ',', ':'], "_"),
+        x.span.start,
+        x.span.end
+    )
+}
+
+fn diags_str(ds: &[Diagnostic<'_>]) -> String {
+    if ds.is_empty() {
+        return "-".to_string();
+    }
+    ds.iter().map(diag_str).collect::<Vec<_>>().join(",")
+}
+
+fn labels_str(ds: &[Diagnostic<'_>]) -> String {
+    if ds.is_empty() {
+        return "-".to_string();
+    }
+    ds.iter()
+        .map(|x| {
+            if x.labels.is_empty() {
+                "-".to_string()
+            } else {
+                x.labels.iter().map(|l| format!("{}:{}", l.span.start, l.span.end)).collect::<Vec<_>>().join(";")
+            }
+        })
+        .collect::<Vec<_>>()
+        .join(",")
+}
+
+fn expr_spans<'a>(e: ExprRef<'a>, out: &mut Vec<(&'static str, Span)>) {
+    match e {
+        Expr::Index { array, index, index_span, span } => {
+            out.push(("index.index_span", *index_span));
+            out.push(("index", *span));
+            expr_spans(array, out);
+            expr_spans(index, out);
+        }
+        Expr::String { span, .. } => out.push(("string", *span)),
+        Expr::Number(_, span) => out.push(("number", *span)),
+        Expr::Var(_, span) => out.push(("var", *span)),
+        Expr::Binary { lhs, rhs, span, .. } => {
+            out.push(("binary", *span));
+            expr_spans(lhs, out);
+            expr_spans(rhs, out);
+        }
+        Expr::Call { callee, args, span } => {
+            out.push(("call", *span));
+            expr_spans(callee, out);
+            for a in args.args {
+                expr_spans(a, out);
+            }
+        }
+        Expr::Array { elements, span } => {
+            out.push(("array", *span));
+            for a in *elements {
+                expr_spans(a, out);
+            }
+        }
+        Expr::Unary { expr, span, .. } => {
+            out.push(("unary", *span));
+            expr_spans(expr, out);
+        }
+        Expr::Bool(_, span) => out.push(("bool", *span)),
+        Expr::Member { object, field_span, span, .. } => {
+            out.push(("member.field_span", *field_span));
+            out.push(("member", *span));
+            expr_spans(object, out);
+        }
+        Expr::Null(span) => out.push(("null", *span)),
+    }
+}
+
+fn stmt_spans<'a>(s: StmtRef<'a>, out: &mut Vec<(&'static str, Span)>) {
+    match s {
+        Stmt::FunctionDef { name_span, params, body, span, .. } => {
+            out.push(("fn.name_span", *name_span));
+            out.push(("fn", *span));
+            for p in params.param_spans {
+                out.push(("fn.param", *p));
+            }
+            block_spans(body, out);
+        }
+        Stmt::Assign { var_span, expr, span, .. } => {
+            out.push(("let.var_span", *var_span));
+            out.push(("let", *span));
+            expr_spans(expr, out);
+        }
+        Stmt::AssignExisting { var_span, expr, span, .. } => {
+            out.push(("set.var_span", *var_span));
+            out.push(("set", *span));
+            expr_spans(expr, out);
+        }
+        Stmt::AssignIndex { target, expr, span } => {
+            out.push(("seti", *span));
+            expr_spans(target, out);
+            expr_spans(expr, out);
+        }
+        Stmt::If { cond, then_b, else_b, span } => {
+            out.push(("if", *span));
+            expr_spans(cond, out);
+            block_spans(then_b, out);
+            if let Some(b) = else_b {
+                block_spans(b, out);
+            }
+        }
+        Stmt::Loop { cond, body, span } => {
+            out.push(("loop", *span));
+            expr_spans(cond, out);
+            block_spans(body, out);
+        }
+        Stmt::Block { block, span } => {
+            out.push(("blk", *span));
+            block_spans(block, out);
+        }
+        Stmt::Return { expr, span } => {
+            out.push(("ret", *span));
+            if let Some(e) = expr {
+                expr_spans(e, out);
+            }
+        }
+        Stmt::Break { span } => out.push(("brk", *span)),
+        Stmt::Continue { span } => out.push(("cont", *span)),
+        Stmt::Expression { expr, span } => {
+            out.push(("expr", *span));
+            expr_spans(expr, out);
+        }
+    }
+}
+
+fn block_spans<'a>(b: &'a Block<'a>, out: &mut Vec<(&'static str, Span)>) {
+    out.push(("block", b.span));
+    for s in b.stmts {
+        stmt_spans(s, out);
+    }
+}
+
+fn span_bad(src: &str, s: &Span) -> Option<&'static str> {
+    if s.start == 0 && s.end == 0 {
+        return None;
+    }
+    if s.start > s.end {
+        return Some("start>end");
+    }
+    if s.end > src.len() {
+        return Some("end>len");
+    }
+    if !src.is_char_boundary(s.start) || !src.is_char_boundary(s.end) {
+        return Some("not-char-boundary");
+    }
+    None
+}
+
+/// (answer, oracle failure)
+fn parse_real(src: &str) -> (String, Option<String>) {
+    let arena = Arena::new(pipeline::ARENA_CAP).unwrap();
+    let lexer = Lexer::new(src, &arena);
+    let mut parser = Parser::new(lexer, &arena);
+    let (root, errs) = parser.parse_program();
+    let all = &errs.diagnostics;
+    let n_lex = all.iter().take_while(|d| d.code == "lexical").count();
+    let syn = &all[n_lex..];
+    let mut fail = None;
+    if let Some(d) = syn.iter().find(|d| d.code != "syntax") {
+        fail = Some(format!("non-syntax diagnostic after the lexical prefix: {}", diag_str(d)));
+    }
+    let mut spans = Vec::new();
+    block_spans(root, &mut spans);
+    for (what, s) in &spans {
+        if let Some(why) = span_bad(src, s) {
+            fail.get_or_insert(format!("ast span {what} {}:{} {why}", s.start, s.end));
+        }
+    }
+    for d in all.iter() {
+        if let Some(why) = span_bad(src, &d.span) {
+            fail.get_or_insert(format!("diag span {} {why}", diag_str(d)));
+        }
+        for l in &d.labels {
+            if let Some(why) = span_bad(src, &l.span) {
+                fail.get_or_insert(format!("label span {}:{} of {} {why}", l.span.start, l.span.end, diag_str(d)));
+            }
+        }
+    }
+    let ans = format!(
+        "diags={} labels={} ast={} end=ok",
+        diags_str(syn),
+        labels_str(syn),
+        astio::program(&Opts { spans: true, facts: None }, root)
+    );
+    (ans, fail)
+}
+
+fn answer_line(line: &str) -> (String, Option<String>) {
+    let w: Vec<&str> = line.split_whitespace().collect();
+    match w.as_slice() {
+        ["parse", src, _toks] => {
+            let Some(bytes) = util::unhex(src) else { return ("bad-op".into(), None) };
+            let Ok(text) = String::from_utf8(bytes) else { return ("bad-utf8".into(), None) };
+            match util::catch(|| parse_real(&text)) {
+                Ok(r) => r,
+                Err(m) => (
+                    "diags=? labels=? ast=? end=panic".to_string(),
+                    Some(format!("parser panicked: {}", m.replace('\n', " "))),
+                ),
+            }
+        }
+        _ => ("bad-op".into(), None),
+    }
+}
+
+fn run() -> i32 {
+    util::silence_panics();
+    let mut out = Out::new();
+    for (i, line) in util::stdin_lines().iter().enumerate() {
+        let (ans, fail) = answer_line(line);
+        out.line(&ans);
+        if let Some(f) = fail {
+            eprintln!("ORACLE-FAIL {} {}", i + 1, f);
+        }
+    }
+    0
+}
+
+// ------------------------------------------------------------------------------------------------
+// requests
+// ------------------------------------------------------------------------------------------------
+
+fn req(out: &mut Out, src: &str) {
+    out.line(&format!("parse {} {}", util::hex(src.as_bytes()), lex::toks_str(src)));
+}
+
+fn mkreq() -> i32 {
+    let mut out = Out::new();
+    for line in util::stdin_lines() {
+        let Some(bytes) = util::unhex(line.trim()) else { continue };
+        let Ok(text) = String::from_utf8(bytes) else { continue };
+        req(&mut out, &text);
+    }
+    0
+}
+
+// ------------------------------------------------------------------------------------------------
+// generators: programs are built as lists of token texts, then laid out
+// ------------------------------------------------------------------------------------------------
+
+const NAMES: &[&str] = &["x", "y", "foo", "bar_1", "_t", "n", "arr", "shout", "s"];
+const FIELDS: &[&str] = &["len", "push", "pop", "abs", "slice", "to_uppercase", "f"];
+const BINOPS: &[&str] =
+    &["add", "minus", "times", "divide", "mod", "na", "pass", "small pass", "and", "or"];
+
+struct G {
+    rng: Rng,
+    t: Vec<String>,
+    /// Variant mode (`--kind pairs`): a second token vector that receives every token of `t` plus
+    /// redundant parentheses at the wrap points. The parentheses are drawn from this separate `Rng`,
+    /// never from `rng`, so `t` is the same with and without variant mode.
+    v: Option<(Rng, Vec<String>)>,
+}
+
+impl G {
+    fn p(&mut self, s: &str) {
+        self.t.push(s.to_string());
+        if let Some((_, v)) = &mut self.v {
+            v.push(s.to_string());
+        }
+    }
+
+    /// Wrap point, opening side: in variant mode push 0, 1 or (rarely) 2 `(` into the second vector
+    /// only. Returns how many were pushed; `wrap_close` pushes as many `)`.
+    fn wrap_open(&mut self) -> u32 {
+        let Some((r, v)) = &mut self.v else { return 0 };
+        let k = if r.chance(1, 3) {
+            if r.chance(1, 8) { 2 } else { 1 }
+        } else {
+            0
+        };
+        for _ in 0..k {
+            v.push("(".to_string());
+        }
+        k
+    }
+
+    fn wrap_close(&mut self, k: u32) {
+        if let Some((_, v)) = &mut self.v {
+            for _ in 0..k {
+                v.push(")".to_string());
+            }
+        }
+    }
+
+    /// An expression in a position where the parser calls `parse_expression(0)`: the value of an
+    /// assignment / `return`, a call argument, an array element, an index, the inside of `( )`, an
+    /// `if to say` / `jasi` condition. There `e` and `( e )` give the same tree.
+    fn expr0(&mut self, d: u32) {
+        let k = self.wrap_open();
+        self.expr(d);
+        self.wrap_close(k);
+    }
+
+    fn name(&mut self) -> String {
+        (*self.rng.pick(NAMES)).to_string()
+    }
+
+    fn number(&mut self) -> String {
+        match self.rng.below(6) {
+            0 => "0".into(),
+            1 => self.rng.below(10).to_string(),
+            2 => self.rng.below(100000).to_string(),
+            3 => format!("{}.{}", self.rng.below(100), self.rng.below(1000)),
+            4 => "3.14".into(),
+            _ => format!("{}.0", self.rng.below(50)),
+        }
+    }
+
+    /// A string literal token text. Braces in every shape the template scanner distinguishes.
+    fn string(&mut self) -> String {
+        const PIECES: &[&str] = &[
+            "hi", " ", "a b", "{x}", "{foo}", "{ x }", "{  bar_1\t}", "{{", "}}", "}", "{", "{}", "{ }", "{1x}", "{x y}",
+            "{x", "{x.y}", "{_t}", "{{x}}", "}{", "é", "€", "😀", "naïve", "{é}", "{x}{y}", "{{{x}}}", "{x }}", "%", ":", ",",
+        ];
+        const ESCAPES: &[&str] = &["\\n", "\\t", "\\\\", "\\q"];
+        let quote = if self.rng.chance(3, 4) { '"' } else { '\'' };
+        let mut s = String::new();
+        s.push(quote);
+        let k = self.rng.below(5);
+        for _ in 0..k {
+            if self.rng.chance(1, 8) {
+                s.push_str(self.rng.pick(ESCAPES));
+            } else if self.rng.chance(1, 16) {
+                s.push('\\');
+                s.push(quote);
+            } else {
+                s.push_str(self.rng.pick(PIECES));
+            }
+        }
+        if !self.rng.chance(1, 40) {
+            s.push(quote); // rarely unterminated
+        }
+        s
+    }
+
+    fn args(&mut self, d: u32, open: &str, close: &str) {
+        self.p(open);
+        let k = match self.rng.below(8) {
+            0 | 1 => 0,
+            2 | 3 | 4 => 1,
+            5 | 6 => 2,
+            _ => 3,
+        };
+        for i in 0..k {
+            if i > 0 {
+                self.p(",");
+            }
+            self.expr0(d + 1);
+        }
+        if k > 0 && self.rng.chance(1, 10) {
+            self.p(","); // trailing comma
+        }
+        self.p(close);
+    }
+
+    fn atom(&mut self) {
+        let k = self.wrap_open();
+        self.atom_inner();
+        self.wrap_close(k);
+    }
+
+    fn atom_inner(&mut self) {
+        match self.rng.below(9) {
+            0 | 1 => {
+                let n = self.number();
+                self.p(&n)
+            }
+            2 | 3 => {
+                let n = self.name();
+                self.p(&n)
+            }
+            4 | 5 => {
+                let s = self.string();
+                self.p(&s)
+            }
+            6 => self.p("true"),
+            7 => self.p("false"),
+            _ => self.p("null"),
+        }
+    }
+
+    fn expr(&mut self, d: u32) {
+        let deep = d >= 5;
+        let c = if deep { self.rng.below(3) } else { self.rng.below(14) };
+        match c {
+            0..=2 => self.atom(),
+            3..=5 => {
+                // binary chain
+                self.expr(d + 1);
+                let k = 1 + self.rng.below(3);
+                for _ in 0..k {
+                    let op = *self.rng.pick(BINOPS);
+                    self.p(op);
+                    self.expr(d + 1);
+                }
+            }
+            6 => {
+                let op = if self.rng.chance(1, 2) { "not" } else { "minus" };
+                self.p(op);
+                self.expr(d + 1);
+            }
+            7 => {
+                self.p("(");
+                self.expr0(d + 1);
+                self.p(")");
+            }
+            8 => self.args(d, "[", "]"),
+            9..=11 => {
+                // postfix chain on a primary
+                match self.rng.below(4) {
+                    0 => {
+                        self.p("(");
+                        self.expr0(d + 1);
+                        self.p(")");
+                    }
+                    1 => self.args(d, "[", "]"),
+                    _ => {
+                        let n = self.name();
+                        self.p(&n)
+                    }
+                }
+                let k = 1 + self.rng.below(3);
+                for _ in 0..k {
+                    match self.rng.below(3) {
+                        0 => self.args(d, "(", ")"),
+                        1 => {
+                            self.p("[");
+                            self.expr0(d + 1);
+                            self.p("]");
+                        }
+                        _ => {
+                            self.p(".");
+                            let f = *self.rng.pick(FIELDS);
+                            self.p(f);
+                        }
+                    }
+                }
+            }
+            12 => {
+                // method call on a literal
+                let s = if self.rng.chance(1, 2) { self.string() } else { format!("{}.5", self.rng.below(9)) };
+                self.p(&s);
+                self.p(".");
+                let f = *self.rng.pick(FIELDS);
+                self.p(f);
+                self.args(d, "(", ")");
+            }
+            _ => {
+                let n = self.name();
+                self.p(&n);
+                self.args(d, "(", ")");
+            }
+        }
+    }
+
+    fn block(&mut self, d: u32) {
+        self.p("start");
+        let k = if d >= 3 { self.rng.below(2) } else { self.rng.below(4) };
+        for _ in 0..k {
+            self.stmt(d + 1);
+        }
+        self.p("end");
+    }
+
+    fn stmt(&mut self, d: u32) {
+        match self.rng.below(16) {
+            0..=2 => {
+                self.p("make");
+                let n = self.name();
+                self.p(&n);
+                if !self.rng.chance(1, 10) {
+                    self.p("get");
+                    self.expr0(0);
+                }
+            }
+            3 | 4 => {
+                let n = self.name();
+                self.p(&n);
+                self.p("get");
+                self.expr0(0);
+            }
+            5 => {
+                // index assignment
+                let n = self.name();
+                self.p(&n);
+                let k = 1 + self.rng.below(2);
+                for _ in 0..k {
+                    self.p("[");
+                    self.expr0(1);
+                    self.p("]");
+                }
+                self.p("get");
+                self.expr0(0);
+            }
+            6 | 7 => {
+                self.p("if to say");
+                self.p("(");
+                self.expr0(0);
+                self.p(")");
+                self.block(d);
+                if self.rng.chance(1, 2) {
+                    self.p("if not so");
+                    self.block(d);
+                }
+            }
+            8 => {
+                self.p("jasi");
+                self.p("(");
+                self.expr0(0);
+                self.p(")");
+                self.block(d);
+            }
+            9 => {
+                self.p("do");
+                let n = self.name();
+                self.p(&n);
+                self.p("(");
+                let k = self.rng.below(4);
+                for i in 0..k {
+                    if i > 0 {
+                        self.p(",");
+                    }
+                    let n = self.name();
+                    self.p(&n);
+                }
+                if k > 0 && self.rng.chance(1, 12) {
+                    self.p(",");
+                }
+                self.p(")");
+                self.block(d);
+            }
+            10 => {
+                self.p("return");
+                // a bare `return` is only unambiguous before `end` / EOF; elsewhere the parser
+                // takes the next tokens as the value — both are exercised
+                if self.rng.chance(3, 4) {
+                    self.expr0(0);
+                }
+            }
+            11 => self.p("comot"),
+            12 => self.p("next"),
+            13 => self.block(d),
+            _ => {
+                // expression statement: starts with an identifier
+                let n = self.name();
+                self.p(&n);
+                let k = self.rng.below(3);
+                for _ in 0..=k {
+                    match self.rng.below(4) {
+                        0 | 1 => self.args(1, "(", ")"),
+                        2 => {
+                            self.p(".");
+                            let f = *self.rng.pick(FIELDS);
+                            self.p(f);
+                        }
+                        _ => {
+                            self.p("[");
+                            self.expr0(1);
+                            self.p("]");
+                        }
+                    }
+                }
+                if self.rng.chance(1, 6) {
+                    let op = *self.rng.pick(BINOPS);
+                    self.p(op);
+                    self.expr(1);
+                }
+            }
+        }
+    }
+
+    fn program(&mut self) {
+        let k = 1 + self.rng.below(6);
+        for _ in 0..k {
+            self.stmt(0);
+        }
+    }
+}
+
+/// Join token texts: mostly single spaces, sometimes newlines / tabs / CRLF / comments.
+fn layout(rng: &mut Rng, toks: &[String]) -> String {
+    let style = rng.below(5);
+    let mut s = String::new();
+    for (i, t) in toks.iter().enumerate() {
+        if i > 0 {
+            match style {
+                0 => s.push(' '),
+                1 => s.push('\n'),
+                2 => s.push_str(*rng.pick(&[" ", "  ", "\t", "\n", "\r\n", " \n "])),
+                3 => s.push_str(*rng.pick(&[" ", " ", "\n", " # note\n", "\r"])),
+                _ => s.push_str(if rng.chance(1, 6) { "\n" } else { " " }),
+            }
+        }
+        s.push_str(t);
+    }
+    if rng.chance(1, 8) {
+        s.push_str(*rng.pick(&["\n", " ", " # tail", "\r\n"]));
+    }
+    s
+}
+
+const VOCAB: &[&str] = &[
+    "make", "get", "add", "minus", "times", "divide", "mod", "and", "or", "not", "jasi", "start", "end", "comot",
+    "next", "na", "pass", "small pass", "if to say", "if not so", "do", "return", "true", "false", "null", "(", ")",
+    "[", "]", ",", ".", "x", "foo", "7", "2.5", "\"s\"", "\"a{x}b\"", "'q'", "@", "é", "if", "small", "\"{\"",
+];
+
+fn mutate(rng: &mut Rng, toks: &mut Vec<String>) {
+    let k = 1 + rng.below(3);
+    for _ in 0..k {
+        if toks.is_empty() {
+            toks.push((*rng.pick(VOCAB)).to_string());
+            continue;
+        }
+        let i = rng.below(toks.len() as u64) as usize;
+        match rng.below(7) {
+            0 | 1 => {
+                toks.remove(i);
+            }
+            2 => {
+                let t = toks[i].clone();
+                toks.insert(i, t);
+            }
+            3 => {
+                if i + 1 < toks.len() {
+                    toks.swap(i, i + 1);
+                }
+            }
+            4 | 5 => toks[i] = (*rng.pick(VOCAB)).to_string(),
+            _ => toks.insert(i, (*rng.pick(VOCAB)).to_string()),
+        }
+    }
+    if rng.chance(1, 10) {
+        let cut = rng.below(toks.len() as u64 + 1) as usize;
+        toks.truncate(cut);
+    }
+}
+
+fn gen_deep(rng: &mut Rng) -> String {
+    // nesting depth <= 200 (deeper input overflows the native stack of the real parser: D-08)
+    let n = 20 + rng.below(150) as usize;
+    match rng.below(7) {
+        0 => format!("make x get {}1{}", "( ".repeat(n), " )".repeat(n)),
+        1 => format!("make x get {}true", "not ".repeat(n)),
+        2 => format!("make x get {}1{}", "[ ".repeat(n), " ]".repeat(n)),
+        3 => format!("{}comot {}", "start ".repeat(n), "end ".repeat(n)),
+        4 => format!("make x get {}1", "1 add ".repeat(n)),
+        5 => format!("make x get f{}", "(f".repeat(n)), // unclosed calls
+        _ => format!("x{} get 1", "[0]".repeat(n)),
+    }
+}
+
+/// Span-free token texts (`lex::tok_payload`) the real lexer yields for `src`; None if it panics.
+fn payloads(src: &str) -> Option<Vec<String>> {
+    util::catch(|| {
+        let arena = Arena::new(pipeline::ARENA_CAP).unwrap();
+        let mut lexer = Lexer::new(src, &arena);
+        lex::drive(&mut lexer).iter().map(|t| lex::tok_payload(&t.token)).collect::<Vec<_>>()
+    })
+    .ok()
+}
+
+/// Does the real parser accept `src` without any syntax diagnostic? (Lexical ones, e.g. an unknown
+/// escape in a string, do not touch the token sequence the parser sees.)
+fn clean(src: &str) -> bool {
+    util::catch(|| {
+        let arena = Arena::new(pipeline::ARENA_CAP).unwrap();
+        let lexer = Lexer::new(src, &arena);
+        let mut parser = Parser::new(lexer, &arena);
+        let (_, errs) = parser.parse_program();
+        errs.diagnostics.iter().all(|d| d.code == "lexical")
+    })
+    .unwrap_or(false)
+}
+
+/// `--kind pairs`: 2 request lines per case. Line 1 = a `G` program in one layout; line 2 = the same
+/// token sequence in another random layout and, when line 1 parses without syntax diagnostics, with
+/// redundant parentheses at the wrap points of `G` (an invalid program is only re-laid-out: inside
+/// error recovery a `)` is a synchronisation token, so parentheses are not redundant there).
+/// 1/3 of the pairs use a mutated token list (re-layout only). A pair is dropped and redrawn unless
+/// each text lexes to the token sequence of its own token list joined by single spaces (an
+/// unterminated string or `small` / `if` next to a comment would make the layout significant).
+fn gen_pairs(seed: u64, n: u64) -> i32 {
+    util::silence_panics();
+    let mut rng = Rng::new(seed ^ 0x7061_6972_73);
+    let mut out = Out::new();
+    let mut done = 0;
+    while done < n {
+        let mutated = rng.below(3) == 0;
+        let grng = rng.fork();
+        let vrng = rng.fork();
+        let mut g = G { rng: grng, t: Vec::new(), v: Some((vrng, Vec::new())) };
+        g.program();
+        let mut a = g.t;
+        let mut b = g.v.map(|x| x.1).unwrap_or_default();
+        if mutated {
+            mutate(&mut rng, &mut a);
+            b = a.clone();
+        }
+        let src1 = layout(&mut rng, &a);
+        if !mutated && !clean(&src1) {
+            b = a.clone();
+        }
+        let mut src2 = layout(&mut rng, &b);
+        for _ in 0..4 {
+            if src2 != src1 {
+                break;
+            }
+            src2 = layout(&mut rng, &b);
+        }
+        let canon_a = payloads(&a.join(" "));
+        let canon_b = payloads(&b.join(" "));
+        if canon_a.is_none() || canon_b.is_none() || payloads(&src1) != canon_a || payloads(&src2) != canon_b {
+            continue;
+        }
+        // parentheses were placed around token *texts*: every text must be exactly one token (a string
+        // left open at the end of the input lexes as an empty string followed by its content)
+        if b.len() != a.len() && canon_b.as_ref().is_some_and(|p| p.len() != b.len() + 1) {
+            continue;
+        }
+        req(&mut out, &src1);
+        req(&mut out, &src2);
+        done += 1;
+    }
+    0
+}
+
+fn generate(args: &[String]) -> i32 {
+    let seed = util::opt_u64(args, "--seed", 1);
+    let n = util::opt_u64(args, "--n", 100);
+    let kind = util::opt(args, "--kind").unwrap_or("mix").to_string();
+    if kind == "pairs" {
+        return gen_pairs(seed, n);
+    }
+    let mut rng = Rng::new(seed ^ 0x7061_7273_65);
+    let mut out = Out::new();
+    for i in 0..n {
+        let k = match kind.as_str() {
+            "prog" => 0,
+            "mut" => 1,
+            "deep" => 2,
+            _ => {
+                if i % 50 == 49 {
+                    2
+                } else if i % 2 == 0 {
+                    0
+                } else {
+                    1
+                }
+            }
+        };
+        let src = if k == 2 {
+            gen_deep(&mut rng)
+        } else {
+            let mut g = G { rng: rng.fork(), t: Vec::new(), v: None };
+            g.program();
+            let mut toks = g.t;
+            if k == 1 {
+                mutate(&mut rng, &mut toks);
+            }
+            layout(&mut rng, &toks)
+        };
+        req(&mut out, &src);
+    }
+    0
+}
